@@ -208,7 +208,8 @@ def shard(ctx):
                         root_pieces=rng.choice([1, 1, 2, 3, 5, 8]))
         gen.spice(rng, spec, ['cat-keyword', 'cat-apostrophe', 'cat-punct-char',
                               'pos-punct-char', 'word-keyword',
-                              'word-typographic-punct'],
+                              'word-typographic-punct', 'edge-odd',
+                              'cat-decorated', 'pos-keyword'],
                   root_labels=['TOP', 'ROOT', 'S'])
         gen.uproot(rng, spec, p=rng.choice([0.1, 0.25, 0.5]),
                    only_tokens=rng.random() < 0.5)
